@@ -120,6 +120,10 @@ for _op, _st in (("<=", "assert x <= snapshot()"), (">=", "assert x >= snapshot(
     SPECIAL.append({"src": _PAR % ("[1, 2, 3]", _st), "exp": {T + "test_p[1]": True, T + "test_p[2]": True, T + "test_p[3]": True}, "name": "param-empty" + _op})
 SPECIAL += [
     {"src": _PAR % ("[1, 3, 2]", "assert x <= snapshot(2)"), "exp": {T + "test_p[1]": False, T + "test_p[3]": True, T + "test_p[2]": False}, "name": "param-wrong<="},
+    {"src": _PAR % ("[3, 1, 4]", "assert x <= snapshot(2)"), "exp": {T + "test_p[3]": True, T + "test_p[1]": False, T + "test_p[4]": True}, "name": "param-two-wrong<="},
+    {"src": _PAR % ("[7, 8]", "assert x in snapshot([5])"), "exp": {T + "test_p[7]": True, T + "test_p[8]": True}, "name": "param-two-wrong-in"},
+    {"src": "from inline_snapshot import snapshot\n\n\ndef helper(x):\n    assert x <= snapshot(1)\n\n\ndef test_a():\n    helper(2)\n\n\ndef test_b():\n    helper(3)\n\n\ndef test_c():\n    helper(1)\n",
+     "exp": {T + "test_a": True, T + "test_b": True, T + "test_c": False}, "name": "helper-shared-wrong"},
     {"src": _PAR % ("[5, 4, 6]", "assert x in snapshot([5, 6])"), "exp": {T + "test_p[5]": False, T + "test_p[4]": True, T + "test_p[6]": False}, "name": "param-wrong-in"},
     {"src": _PAR % ("[5, 4]", "assert x == snapshot(5)"), "exp": {T + "test_p[5]": False, T + "test_p[4]": True}, "name": "param-wrong=="},
     {"src": _SH % ("", "assert 1 <= s", "assert 2 <= s"), "exp": {T + "test_a": True, T + "test_b": True}, "name": "shared-empty<="},
